@@ -591,6 +591,50 @@ def check(ctx):
         and any(isinstance(x, ast.Expr) and isinstance(x.value, ast.Call) and norm(x.value.func) == "dependencies.update" for x in ast.walk(expand[0]))
     ctx.check(ok, "C10.R11", f"{fd.qualname}:expand", None, "a callable member is no longer replaced (removed, then updated) by its own dependencies", fd, expand[0] if expand else fd.node, detail="dependencies.remove(attr); dependencies.update(rec_deps)")
 
+    # ---------------- R14: the mock on which validators run when some field is invalid
+    ctx.rule("C10.R14", "ValidatorMock stands for the object that could not be built: a deserialized value is returned whatever it is (None included: presence is `name in values`), a defaulted field of the *deserialization* view gives its default, `__class__` answers the validated class and helpers take the class from `obj.__class__` (never type(obj)), static methods are not bound", floor=6)
+    mk = model.func("apischema.validation.mock.ValidatorMock.__getattribute__")
+    body14 = mk.node.body
+    # (a) presence by membership
+    first_ret = min((n for n in walk_no_nested(mk.node) if isinstance(n, ast.Return) and n.value is not None), key=lambda n: n.lineno, default=None)
+    from ..pathcond import parents_of as _po14, path_condition as _pc14
+    pm14 = _po14(mk.node)
+    cond14 = norm(_pc14(mk.node, first_ret, pm14)) if first_ret is not None else ""
+    ctx.check(first_ret is not None and cond14.replace("(", "").replace(")", "") == "name in values" and norm(first_ret.value) == "values[name]", "C10.R14", f"{mk.qualname}:presence", None,
+              f"the deserialized value is returned under `{cond14}` (value `{norm(first_ret.value) if first_ret is not None else '?'}`): a field whose value is None - an explicit null in the data - is taken for absent and the validator sees the field's default; its violation disappears from the report exactly when another field is invalid",
+              mk, first_ret or mk.node, detail="if name in values: return values[name]")
+    # (b) fields of the deserialization view
+    ofc = [c for c in walk_no_nested(mk.node) if isinstance(c, ast.Call) and dotted(c.func) == "object_fields"]
+    ctx.check(len(ofc) == 1 and any(k.arg == "deserialization" and norm(k.value) == "True" for k in ofc[0].keywords), "C10.R14", f"{mk.qualname}:fields", None, "the mock does not look defaults up among the fields of the deserialization view", mk, ofc[0] if ofc else mk.node, detail="object_fields(cls, deserialization=True)")
+    sk = model.functions.get("apischema.objects.getters.object_fields.<locals>.GetFields._skip_field")
+    ctx.require(sk is not None, "object_fields: GetFields._skip_field vanished")
+    ev14 = BoolEval({"field.skip.deserialization": "skip_d", "field.skip.serialization": "skip_s", "deserialization": "d", "serialization": "s"})
+    rets14 = [r for r in walk_no_nested(sk.node) if isinstance(r, ast.Return)]
+    try:
+        got14 = ev14.compile(rets14[0].value)
+        bad14 = next((v for v in valuations(["skip_d", "skip_s", "d", "s"]) if bool(got14(v)) != bool((v["skip_d"] and v["d"]) or (v["skip_s"] and v["s"]))), None)
+        ctx.check(bad14 is None, "C10.R14", f"{sk.qualname}:view", None,
+                  f"object_fields(..., deserialization=, serialization=) drops the wrong fields under [{show(bad14) if bad14 else ''}]: the flags are crossed - the deserialization view loses the fields skipped for *serialization* only, so the mock does not know a defaulted `skip(serialization=True)` field and raises NonTrivialDependency out of deserialize (and object_serialization(cls, [...]) serializes deserialization-only fields)",
+                  sk, rets14[0], detail="(skip.deserialization and deserialization) or (skip.serialization and serialization)")
+    except Unknown as err:
+        ctx.undecided("C10.R14", f"{sk.qualname}: {err}")
+    # (c) __class__ and the helpers using it
+    ctx.check(any(isinstance(n, ast.If) and norm(n.test) == "name == '__class__'" and any(isinstance(r, ast.Return) and norm(r.value) == "cls" for r in n.body) for n in walk_no_nested(mk.node)), "C10.R14", f"{mk.qualname}:__class__", None, "the mock no longer answers the validated class for `__class__`", mk, mk.node, detail="if name == '__class__': return cls")
+    n_cls = 0
+    for q14 in ("apischema.objects.getters.object_fields2", f"{VALIDATORS_MOD}.validate"):
+        f14 = model.func(q14)
+        p0 = f14.params[0]
+        for c in walk_no_nested(f14.node):
+            if isinstance(c, ast.Call) and dotted(c.func) == "type" and len(c.args) == 1 and norm(c.args[0]) == p0:
+                ctx.fail("C10.R14", f"{q14}:type({p0})", None, f"`type({p0})` is ValidatorMock itself when validators run on the mock (another field being invalid): get_alias(mock) then finds no field and a failing *field* validator raises AttributeError out of deserialize instead of reporting its error under the field", f14.module.relpath, c.lineno)
+        if any(isinstance(a, ast.Attribute) and a.attr == "__class__" and norm(a.value) == p0 for a in walk_no_nested(f14.node)):
+            n_cls += 1
+            ctx.ok("C10.R14", f"{q14}:{p0}.__class__", "class taken from obj.__class__", True, f14.loc)
+    ctx.check(n_cls >= 1, "C10.R14", "helpers:obj.__class__", None, "no helper takes the class of the validated object from obj.__class__ any more (rule to be re-derived)", None, None, detail=f"{n_cls} helper(s)", nontrivial=False)
+    # (d) static methods
+    handles_static = any(isinstance(c, ast.Call) and dotted(c.func) in ("getattr_static", "inspect.getattr_static") for c in walk_no_nested(mk.node)) and "staticmethod" in norm(mk.node)
+    ctx.check(handles_static, "C10.R14", f"{mk.qualname}:staticmethod", None, "a static method reached through the mock is bound like an instance method (partial(member, self)): `self.helper(x)` raises TypeError out of deserialize as soon as another field is invalid", mk, mk.node, detail="getattr_static(cls, name) is a staticmethod -> returned unbound")
+
     # ---------------- R13: validators without known dependencies on object types
     ctx.rule("C10.R13", "object types: validators that are not registered on a class (per-call `validators=`, `validators(...)` metadata) have no dependency set; they are not handed to the dependency scheduler of ObjectMethod (which would drop them as 'all dependencies defaulted') but executed on the constructed object", floor=3)
     ob = model.func("apischema.deserialization.DeserializationMethodVisitor.object")
@@ -654,6 +698,11 @@ def fixtures(ctx):
 
 
 def mutants(mb):
+    MK = "apischema/validation/mock.py"
+    mb.add_text("mock-none-is-absent", MK, "        if name in values:\n            return values[name]\n", "        value = values.get(name)\n        if value is not None:\n            return value\n", "C10.R14", "presence")
+    mb.add_text("getters-type-of-mock", "apischema/objects/getters.py", "        obj if isinstance(obj, (type, _GenericAlias)) else obj.__class__\n", "        obj if isinstance(obj, (type, _GenericAlias)) else type(obj)\n", "C10.R14", "object_fields2")
+    mb.add_text("object-fields-flags-crossed", "apischema/objects/getters.py", "            return (field.skip.deserialization and deserialization) or (\n                field.skip.serialization and serialization\n            )\n", "            return (field.skip.deserialization and serialization) or (\n                field.skip.serialization and deserialization\n            )\n", "C10.R14", "view")
+    mb.add_text("mock-binds-staticmethods", MK, "                if isinstance(getattr_static(cls, name), staticmethod):\n                    return member\n", "", "C10.R14", "staticmethod")
     mb.add_text("free-validators-to-scheduler", "apischema/deserialization/__init__.py", "        return self._factory(factory_with_free_validators, dict, validation=False)", "        return self._factory(factory, dict, validation=False)", "C10.R13", "partition")
     mb.add_text("free-validators-dropped", "apischema/deserialization/__init__.py", "            if free_validators:\n                method = ValidatorMethod(method, free_validators, self.aliaser)\n            return method\n", "            return method\n", "C10.R13", "free-run")
     mb.add_text("path-truthiness-on-raw-key", "apischema/validation/errors.py", "        if path is None:\n            path = ()\n        elif isinstance(path, str) or not isinstance(path, Collection):\n            path = (path,)  # a single key, possibly falsy (index 0, empty string)\n        if not path:\n            messages.append(msg)\n        else:\n",
